@@ -85,6 +85,8 @@ def main(argv=None):
     ap.add_argument("--only", help="run only tasks whose label contains this string")
     ap.add_argument("--jobs", type=int, default=int(os.environ.get("VERIF_JOBS", "16")))
     ap.add_argument("--no-evidence", action="store_true")
+    ap.add_argument("--first", action="store_true",
+                    help="stop at the first task that reports a violation (used when evaluating seeded changes; never writes evidence)")
     a = ap.parse_args(argv)
     prop = a.prop.upper()
     tier = a.tier if a.tier in ("quick", "thorough") else "quick"
@@ -133,6 +135,9 @@ def main(argv=None):
                 ):
                     samples.append(s)
             slow.append((res.get("wall", 0), res["task"]))
+            if a.first and violations:
+                a.no_evidence = True
+                break
     wall = time.time() - t0
 
     if herr:
